@@ -29,6 +29,8 @@ Inductive rpc :=
   | RDbgNext               (* c.next.Load() evaluated as a debugPrintf argument after a failed next CAS *)
   | RDbgFail               (* f.counters.Load() evaluated as a debugPrintf argument after a failed head CAS *)
   | RDbgOk                 (* f.counters.Load() evaluated as a debugPrintf argument after a successful head CAS *)
+  | RInv | RRef            (* fix f518e0b: the goroutine that linked c runs c.invalidate() and c.refresh():
+                              their loads of c's state word (the word itself is Model/CounterConc's subject) *)
   | RDone.
 
 Record rthread := mkRT {
@@ -74,7 +76,9 @@ Definition rstep_thread (s : rshared) (t : rthread) : rshared * rthread :=
       else (s, mkRT RDbgFail (rt_c t) (rt_wrote t) (rt_head t))
   | RDbgNext => (s, mkRT RTest (rt_c t) (rt_wrote t) (rt_head t))
   | RDbgFail => (s, mkRT RHead (rt_c t) (rt_wrote t) (rt_head t))
-  | RDbgOk => (s, mkRT RDone (rt_c t) (rt_wrote t) (rt_head t))
+  | RDbgOk => (s, mkRT RInv (rt_c t) (rt_wrote t) (rt_head t))
+  | RInv => (s, mkRT RRef (rt_c t) (rt_wrote t) (rt_head t))
+  | RRef => (s, mkRT RDone (rt_c t) (rt_wrote t) (rt_head t))
   | RDone => (s, t)
   end.
 
